@@ -51,9 +51,11 @@ class Markers(object):
         if code == "M73":
             return rnd.choice(["M73 P%d", "M73 P%d R%d", "M73 R%d"]).replace("%d", str(n), 1).replace("%d", str(n + 5000))
         if code == "M204":
-            return rnd.choice(["M204 S%d", "M204 P%d T%d", "M204 T%d", "M204 P%d"]).replace("%d", str(n), 1).replace("%d", str(n + 5000))
+            return rnd.choice(["M204 S%d", "M204 P%d T%d", "M204 T%d", "M204 P%d", "M204 P%d T0", "M204 S0 P%d", "M204 T0.0 S%d",
+                               "M204 P-%d T+%d"]).replace("%d", str(n), 1).replace("%d", str(n + 5000))
         if code == "M205":
-            return rnd.choice(["M205 X%d Y%d", "M205 X%d", "M205 Y%d Z%d"]).replace("%d", str(n), 1).replace("%d", str(n + 5000))
+            return rnd.choice(["M205 X%d Y%d", "M205 X%d", "M205 Y%d Z%d", "M205 X0 Y%d", "M205 X%d Y0.0", "M205 Z.5 X%d",
+                               "M205 X%d Y-0"]).replace("%d", str(n), 1).replace("%d", str(n + 5000))
         if code == "M900":
             return rnd.choice(["M900 K%d", "M900 K%d", "M900 K T%d", "M900 K%d L%d"]).replace("%d", str(n), 1).replace("%d", str(n + 5000))
         if code == "M220":
@@ -255,6 +257,7 @@ def run_plugin_case(case):
 
 class C06(Monitor):
     prop = "C06"
+    quick_cases = 900
     rule = ("plugin-layer histories of 1-3 prints; random assignment of modes {exclude, first, last, merge} to codes from {G4, M73, M117, "
             "M204, M205, M900, M220}; enter/exit scripts set through the real settings as multi-line text with comments, blank lines, "
             "CRLF and leading blanks; every deferred instance and script line carries a unique marker; episodes end by a move out, a "
@@ -264,8 +267,6 @@ class C06(Monitor):
     assumptions = ["merged commands are compared as letter->value maps read by the independent RS274 reader",
                    "re-positioning and retraction commands are recognised by shape (G92 E / G0 F.. / G90 / G91 / G1 F.. E.. / G10 / G11)"]
 
-    def budget(self, tier):
-        return dict(workers=4, cases=300) if tier == "quick" else dict(workers=16, cases=0, secs=180, timeout=1500)
 
     def gen_case(self, rnd, tier, k):
         return build_case(rnd, tier)
@@ -292,6 +293,7 @@ class C06(Monitor):
 
 class C15(Monitor):
     prop = "C15"
+    quick_cases = 1200
     rule = ("plugin-layer: one print whose program ends inside or outside an episode (with deferred codes pending), followed by a "
             "random sequence of script-hook calls over {gcode, other types} x {afterPrintDone, beforePrintStarted, "
             "afterPrintCancelled, ...} mixed with print-end events in both orders; oracle: the first (gcode, afterPrintDone) call while "
@@ -300,8 +302,6 @@ class C15(Monitor):
             "call returns None; non-trivial = program that ended inside an episode with deferred codes pending; distinct by digest")
     assumptions = C06.assumptions
 
-    def budget(self, tier):
-        return dict(workers=4, cases=300) if tier == "quick" else dict(workers=16, cases=0, secs=180, timeout=1500)
 
     def gen_case(self, rnd, tier, k):
         return build_case(rnd, tier, for_c15=True)
